@@ -25,3 +25,11 @@ Theorem C16_second_send_refused : forall s tag, sw_nsent s = 1%N -> sw_sent_hdrs
   sw_step false s (WSend tag) = (s, [], false).
 Proof. exact second_send_refused. Qed.
 Print Assumptions C16_second_send_refused.
+
+(* the monitor that judges "several request messages were delivered" counts exactly the messages
+   the model's reassembly completes on the same frames *)
+From GT Require Import Frames FramesProofs MonApp MonFacts.
+Theorem C16_monitor_counts_like_the_model : forall (A : Type) (fs : list (dframe A)),
+  count_complete (map (@size_image A) fs) = length (gots (snd (rrun RIdle fs))).
+Proof. exact count_complete_is_reassembly. Qed.
+Print Assumptions C16_monitor_counts_like_the_model.
